@@ -1,0 +1,12 @@
+//go:build verif
+// +build verif
+
+package target
+
+// Machine-checked contracts (read by /verif/engine, see /verif/DESIGN.md).
+// This file contains comments only and is excluded from every normal build by the tag "verif".
+
+/*@
+// what a sidecar can report about one target: counts are never negative
+pred wfStatus(st) = st != nil && st.Series >= 0 && st.TotalSeries >= 0
+@*/
